@@ -34,16 +34,13 @@ from . import AllTypes, AllTypesType, NadaTypeRepr, OperationType
 
 def is_primitive_integer(nada_type_str: str):
     """TODO: Autogenerate this method"""
-    return (
-        nada_type_str
-        in (
-            "Integer",
-            "PublicInteger",
-            "SecretInteger",
-            "UnsignedInteger",
-            "PublicUnsignedInteger",
-            "SecretUnsignedInteger",
-        ),
+    return nada_type_str in (
+        "Integer",
+        "PublicInteger",
+        "SecretInteger",
+        "UnsignedInteger",
+        "PublicUnsignedInteger",
+        "SecretUnsignedInteger",
     )
 
 
